@@ -205,19 +205,17 @@ def safeCS (levels : List (List Tbl)) (rm : List Nat) (lvl : Nat) (add : List Ru
       else if i < sh then true
       else true)
 
+/-- a foreground write numbered `seq+1` into the active memtable; reads and writes share one goroutine, so no
+write happens while a read is between its two phases -/
+def write (s : State) (e : Entry) : Option State :=
+  if s.reading.isSome then none else
+  match s.mems.reverse with
+  | [] => none
+  | active :: sealedRev => some { s with seq := s.seq + 1, mems := (active.insert e :: sealedRev).reverse }
+
 def step (s : State) : Act → Option State
-  | .put k v =>
-    match s.mems.reverse with
-    | [] => none
-    | active :: sealedRev =>
-      let e : Entry := ⟨k, s.seq + 1, false, v⟩
-      some { s with seq := s.seq + 1, mems := (active.insert e :: sealedRev).reverse }
-  | .del k =>
-    match s.mems.reverse with
-    | [] => none
-    | active :: sealedRev =>
-      let e : Entry := ⟨k, s.seq + 1, true, []⟩
-      some { s with seq := s.seq + 1, mems := (active.insert e :: sealedRev).reverse }
+  | .put k v => write s ⟨k, s.seq + 1, false, v⟩
+  | .del k => write s ⟨k, s.seq + 1, true, []⟩
   | .rotate => some { s with mems := s.mems ++ [[]] }
   | .flushBegin n =>
     match s.flushing with
@@ -262,6 +260,7 @@ def run (s : State) : List Act → Option State
     | some s' => run s' as
     | none => none
 
+
 /-! ## The specification: a plain map from keys to the last written entry -/
 
 /-- the spec state: association list, newest binding first -/
@@ -273,6 +272,13 @@ def specStep (m : Spec) (seq : Nat) : Act → Spec
   | .put k v => ⟨k, seq + 1, false, v⟩ :: m
   | .del k => ⟨k, seq + 1, true, []⟩ :: m
   | _ => m
+
+/-- implementation state and specification map advanced together -/
+def runBoth (s : State) (m : Spec) : List Act → Option (State × Spec)
+  | [] => some (s, m)
+  | a :: as => match step s a with
+    | some s' => runBoth s' (specStep m s.seq a) as
+    | none => none
 
 /-- observable answer of a point read: the value, or absent (deleted or never written) -/
 def answer : Option Entry → Option Bytes
